@@ -10,7 +10,7 @@
        [k      : index of the next scripted handler result,
         ctx    : "live" | "cancelled"      what msg.Context().Err() shows,
         dl     : BOOLEAN                   a deadline is visible in msg.Context(),
-        settle : "none" | "ack",
+        settle : "none" | "ack" | "nack",
         corr   : correlation id of the consumed message ("" = none),
         delay  : delayed-for metadata (microseconds in traces), -1 = absent,
         obs    : what the handler observed at each invocation]
@@ -77,7 +77,8 @@ Run(ch, i, st, sc, cfg) ==
              IF ~Panicked(x.res) /\ x.res.err \in {"e1", "we1"}
              THEN [res |-> [x.res EXCEPT !.err = "nil"], st |-> x.st]
              ELSE x
-        [] m = "InstantAck" -> Run(ch, i + 1, [st EXCEPT !.settle = "ack"], sc, cfg)
+        \* (first settlement wins: on a message that somebody nacked before, the Ack is without effect -- the handler runs all the same)
+        [] m = "InstantAck" -> Run(ch, i + 1, [st EXCEPT !.settle = IF @ = "none" THEN "ack" ELSE @], sc, cfg)
         [] m \in {"Throttle", "CircuitBreaker"} -> Run(ch, i + 1, st, sc, cfg)
         [] m = "DelayOnError" ->
              LET x == Run(ch, i + 1, st, sc, cfg) IN
